@@ -131,10 +131,10 @@ SysRename(f, so, sn) ==
         ko == Kind(f, wo)
         kn == Kind(f, wn)
         t  == {wo.loc, wn.loc} IN
-    IF wo.err # "ok" \/ wn.err # "ok" \/ wo.dirref \/ wn.dirref \/ ko = "none"
-       \/ wo.loc \in Fixed \/ wn.loc \in Fixed
-    THEN Res("err", t, f)
-    ELSE IF wo.loc = wn.loc THEN Res("ok", t, f)
+    IF wo.err # "ok" \/ wn.err # "ok" \/ ko = "none" THEN Res("err", t, f)
+    ELSE IF wo.loc = wn.loc THEN Res("ok", t, f)          \* same entry: no-op
+    ELSE IF wo.dirref \/ wn.dirref \/ wo.loc \in Fixed \/ wn.loc \in Fixed
+         THEN Res("err", t, f)
     ELSE IF ko # "dir" /\ kn \in {"file", "link"} /\ f[wo.loc].ino = f[wn.loc].ino
          THEN Res("ok", t, f)                      \* two links to one inode: no-op
     ELSE IF ko = "dir" THEN
@@ -226,11 +226,11 @@ Created(f) == DOMAIN f \ Fixed
 
 Step(op, p, q) ==
     LET r == Do(fs, op, p, q)
-        g == Canon(r.fs) IN
+        g == IF r.fs = fs THEN fs ELSE Canon(r.fs) IN
     /\ Bias = "ok" => (r.st = "ok" \/ \E l \in r.touched : ~Under(RootLoc, l))
     /\ Created(g) \subseteq Universe
     /\ Cardinality(Created(g)) <= MaxNodes
-    /\ ~HasLoop(g, Fuel)
+    /\ (g # fs /\ op \in {"symlink", "rename", "posix_rename", "link"}) => ~HasLoop(g, Fuel)
     /\ fs' = g
     /\ n' = n + 1
     /\ esc' = \E l \in r.touched : ~Under(RootLoc, l)
